@@ -49,7 +49,8 @@ pub struct GraphSpec {
     /// how the graph value that is run came to be: 0 = straight from `build()`,
     /// 1 = `built.clone()`, 2 = `scratch.clone_from(&built)` where scratch was built from
     /// a variant of this spec (other edges and declarations, one function fewer),
-    /// 3 = `FnGraph::new()` then `clone_from(&built)`
+    /// 3 = `FnGraph::new()` then `clone_from(&built)`, 4 = scratch built from the same
+    /// spec with the declarations of the last two functions exchanged, then `clone_from`
     pub provenance: u8,
 }
 
